@@ -2,6 +2,7 @@ import Proofs.C05TypeStr
 import Proofs.C05Frame
 import Proofs.C05Rows
 import Proofs.C05Dispatch
+import Proofs.C05Value
 /-!
 # C05 — no bytes from the network can crash the application
 
@@ -287,6 +288,25 @@ theorem C05_cex_rowdata_map_key_blob :
 example : newRow false 4 0 [0, 0, 0, 2, 0, 0, 0, 1, 0, 0, 0, 1, 0, 1, 107, 0, 1, 116, 0, 1, 99, 0, 33, 0, 9, 0, 32, 0, 9, 0, 0, 0, 0] = some (.ok 1) := by decide +kernel
 
 end rows
+
+/-! ## 2. value decoders (marshal.go Unmarshal on arbitrary bytes)
+
+Full statement, the known-bad predicate, closed-form site conditions and the counterexamples
+(`C05Value.C05_cex_*`, all replayable op lines) are in Proofs/C05Value.lean. -/
+section values
+open CrashValue
+
+/-- value decoders: every crash of `Unmarshal` (code as it is) is at one of the seven known sites -/
+theorem C05_values_crash_sites (proto : Nat) (t : CT) (dst : Dest) (data : Option Bytes) (s : Site)
+    (h : unmarshal false proto t dst data = .crash s) : C05Value.known s = true :=
+  C05Value.C05_values_crash_sites proto t dst data s h
+
+/-- value decoders: outside the decidable `knownBad` set no bytes crash `Unmarshal` -/
+theorem C05_values_total_partial (proto : Nat) (t : CT) (dst : Dest) (data : Option Bytes)
+    (h : C05Value.knownBad proto t dst data = false) : ∀ s, unmarshal false proto t dst data ≠ .crash s :=
+  C05Value.C05_values_total_partial proto t dst data h
+
+end values
 
 /-! ## 5. response-kind dispatch (conn.go / control.go / events.go type switches)
 
